@@ -1,0 +1,37 @@
+//go:build verif
+// +build verif
+
+package spg
+
+import (
+	"math/big"
+	"sort"
+)
+
+// This file is only compiled with the "verif" build tag. It gives an external
+// verification harness stable entry points into otherwise unexported
+// behaviour. Nothing here is part of the package's API.
+
+// VerifRandomUint32n exposes the bounded draw for every bound in [1, 2^32).
+func VerifRandomUint32n(n uint32) uint32 { return randomUint32n(n) }
+
+// VerifDrawObserver, when set, is told the bound of every bounded draw
+// before any random byte is read for it.
+var VerifDrawObserver func(n uint32)
+
+func verifObserveDraw(n uint32) {
+	if VerifDrawObserver != nil {
+		VerifDrawObserver(n)
+	}
+}
+
+// verifCanonicalAlphabet puts the alphabet into a canonical (sorted) order so
+// that generation is a deterministic function of the random stream.
+func verifCanonicalAlphabet(chars charList) { sort.Strings(chars) }
+
+// VerifCount returns the exact integer count that entropyWithRequired takes
+// the logarithm of.
+func (r CharRecipe) VerifCount() *big.Int {
+	r.buildCharacterList()
+	return r.n()
+}
